@@ -44,7 +44,7 @@ def bad_operator(inputs, value):
 
 
 def run(ctx: Ctx):
-  for r in (r1, r2, r3, r4, r8, r9, r10, r13, r15, r16, r18, r19, r20):
+  for r in (r1, r2, r3, r4, r8, r9, r10, r13, r15, r16, r18, r19, r20, r21):
     ctx.guard(r)
   from mlmverif.props import c18, c19
   ctx.include('R-C08-5', '"leaves the caller\'s input objects untouched": the'
@@ -886,11 +886,45 @@ def r20(ctx: Ctx):
   ctx.floor(rule, 2, n)
 
 
+def r21(ctx: Ctx):
+  rule = 'R-C08-21'
+  ctx.rule(rule, '"invalid key/argument combinations are rejected at build, not silently mis-routed": the batch-size configuration'
+           ' of an operator is VALIDATED, never repaired. TreeFn.__post_init__ raises for `fn_batch_size` without `batch_size`'
+           ' (a guard whose test reads both fields and whose body raises) and stores neither field itself'
+           ' (`object.__setattr__(self, \'batch_size\', ...)`): an operator that re-batches its function calls but not its'
+           ' outputs pairs output batches with input records holding other rows')
+  fi = ctx.repo.func(TF, 'TreeFn.__post_init__')
+  n = 2
+  guards = [x for x in ast.walk(fi.node) if isinstance(x, ast.If) and any(isinstance(y, ast.Raise) for b in x.body for y in ast.walk(b))
+            and {'fn_batch_size', 'batch_size'} <= {y.attr for y in ast.walk(x.test) if is_self_attr(y)}
+            and any(isinstance(y, ast.UnaryOp) and isinstance(y.op, ast.Not) for y in ast.walk(x.test))]
+  what = 'TreeFn.__post_init__: fn_batch_size without batch_size is rejected'
+  if guards:
+    ctx.ok(rule, fi, what, guards[0])
+  else:
+    ctx.fail(rule, fi, what,
+             'no guard of __post_init__ raises for `fn_batch_size and not batch_size`: the combination is accepted at build and'
+             ' the operator attaches re-batched outputs to input records of other rows (or fails mid-stream)', node=fi.node)
+  stores = [c for c in ast.walk(fi.node) if isinstance(c, ast.Call) and unparse(c.func).endswith('__setattr__') and len(c.args) >= 2
+            and isinstance(c.args[1], ast.Constant) and c.args[1].value in ('batch_size', 'fn_batch_size')]
+  what = 'TreeFn.__post_init__: the configured batch sizes are not rewritten'
+  if stores:
+    ctx.fail(rule, fi, what,
+             f'`{unparse(stores[0])[:70]}` repairs the configuration instead of rejecting it: the caller\'s invalid combination is'
+             ' silently turned into another operator', node=stores[0])
+  else:
+    ctx.ok(rule, fi, what, fi.node)
+  ctx.floor(rule, 2, n)
+
+
 from mlmverif.selfcheck import B, OK  # noqa: E402
 
 _F = 'chainables/tree_fns.py'
 _T = 'chainables/transform.py'
 VARIANTS = [
+    B('fn-batch-size-alone-is-repaired', 'chainables/tree_fns.py',
+      "    if self.fn_batch_size and not self.batch_size:\n      raise ValueError(\n          'fn_batch_size should be used with batch_size, got'\n          f' {self.fn_batch_size=} and {self.batch_size=}.'\n      )\n",
+      "    if self.fn_batch_size and not self.batch_size:\n      object.__setattr__(self, 'batch_size', self.fn_batch_size)\n", 'R-C08-21'),
     B('outputs-zipped-leniently-with-their-keys', 'chainables/tree_fns.py',
       "    for keys, output in zip(self.output_keys, outputs, strict=True):", "    for keys, output in zip(self.output_keys, outputs):", 'R-C08-20'),
     B('setter-zips-keys-and-values-leniently', 'chainables/tree.py',
